@@ -16,6 +16,16 @@ def run(tier, seed):
         raise vlib.Broken('ConnTable: the slot search does not keep connections apart:\n' + ct['out'][-2500:])
     if vlib.model_check('ConnTable.tla', 'ConnTableE1_asfound.cfg', wd, workers=1)['ok']:
         raise vlib.Broken('ConnTable: the as-found slot search is not told apart from the repaired one (the model lost its bite)')
+    apa = 'not run at this tier'
+    if tier == 'thorough':
+        # unbounded: SlotsSound /\ TypeOK is an inductive invariant of the repaired search at the real table size (2 x 32 slots, any
+        # number of connections coming and going), shown symbolically; the as-found search is not inductive
+        a0 = vlib.apalache('ConnTableA.tla', ['--cinit=ConstInit', '--init=Init', '--inv=IndInv', '--length=0'], wd)
+        a1 = vlib.apalache('ConnTableA.tla', ['--cinit=ConstInit', '--init=IndInit', '--inv=IndInv', '--length=1'], wd)
+        a2 = vlib.apalache('ConnTableA.tla', ['--cinit=ConstInitAsFound', '--init=IndInit', '--inv=IndInv', '--length=1'], wd)
+        if (a0, a1) != ('ok', 'ok'): raise vlib.Broken(f'ConnTableA: IndInv is not inductive for the repaired slot search (base {a0}, step {a1})')
+        if a2 != 'violated': raise vlib.Broken('ConnTableA: the as-found slot search is not told apart')
+        apa = 'Apalache: Init => IndInv, IndInv /\\ Next => IndInv\' for H = 32 (64 slots), unbounded number of connections; violated for the as-found search'
     e1 = vlib.model_check('InjectE1.tla', 'InjectE1.cfg', wd, workers=8)
     if not e1['ok']:
         raise vlib.Broken('InjectE1: the credential decision model does not match the map contract:\n' + e1['out'][-2500:])
@@ -60,7 +70,7 @@ def run(tier, seed):
            'samples': [{'events': [e for e in recs[0]['ev'] if e['e'] != 'State']}], 'evaluations': v['n'], 'distinct_nontrivial': len(set('\n'.join(c) for c, _ in scripts)),
            'rule': 'one case = one history of requests against the real cmd_ical()/cmd_http() with chosen peer credentials: adds (1..3 events per request, optional X-ECHS-OWNER by uid or name, own/other/unknown), cancels, GET /sched, /queue (UIDs and the DTSTART each task is shown with) and /u/<other>/...; every request occupies a slot of the connection table of the daemon (make_conn/free_conn), in one history in eight other peers hold 30..63 connections open meanwhile, one in fifty is a burst of 14..20 changes by one user followed by a change and a listing of another user, one in fifty is connections coming and going only (up to and beyond 64); one history in eight is long (25..60 requests, half of them listings, the checkpoint timer in between); peers incl. root, a uid without passwd entry and up to 9 users; UID strings chosen with the real hash so that groups of 2..4 share 4..16 low bits of their table key, and so that the nine places the UID table probes first for the UID of one user are taken by UIDs of another user (the UID lives in the overflow area of the table)',
            'requests': nreq, 'request_items': nitems, 'listings': nhttp, 'colliding_uid_groups': len(col), 'mismatching_runs': v['nbad'],
-           'e1_conn': 'ConnTable.tla (2 x 2 slots, 7 connections): SlotsSound, NoTakeover, RefusedOnlyWhenFull hold for the repaired search and fail for the as-found one', 'e1': 'InjectE1: credential case analysis of _inject_task1/_eject_task1 equals the map contract for 4 peers x 4 owner fields x every reachable 2-UID map (histories <= 3)', 'exhaustive': False}
+           'apalache': apa, 'e1_conn': 'ConnTable.tla (2 x 2 slots, 7 connections): SlotsSound, NoTakeover, RefusedOnlyWhenFull hold for the repaired search and fail for the as-found one', 'e1': 'InjectE1: credential case analysis of _inject_task1/_eject_task1 equals the map contract for 4 peers x 4 owner fields x every reachable 2-UID map (histories <= 3)', 'exhaustive': False}
     return vlib.finish(PID, tier, seed, 'model_checking', cov, t0, unlisted, listed,
                        ['TLC/SANY, Json/IOUtils', 'getpwuid/getpwnam interposed with a fixed user table (root, alice, bob, carol, u2000..u2063); daemon runs as root', 'the administrator\'s (uid 0) own listings are outside the property and not generated',
                         'table keys sharing more than 16 low bits are not generated (the table would grow beyond 2^17 entries)'])
